@@ -330,6 +330,11 @@ func (p *parser) postfix() Expr {
 			p.next()
 			var args []Expr
 			for !p.isOp(")") {
+				if id, isId := x.(*EIdent); isId && len(args) == 1 && (id.Name == "typeis" || id.Name == "typeimpl") {
+					// the second argument is a type (possibly generic / pointer), not an expression
+					args = append(args, &EIdent{p.typeName()})
+					continue
+				}
 				args = append(args, p.iff())
 				if p.isOp(",") {
 					p.next()
